@@ -281,6 +281,48 @@ def r4_store_side(run, rule="R4"):
               "lookup path changed: %s" % subs[:6], fs.loc())
 
 
+def r5_accessors_pass_binding(run, rule="R5"):
+    run.rule(rule, "the typed service accessors of MetadataStore hand the "
+             "caller's binding (or their documented default when none is "
+             "given) to service() and let its refusal propagate: an endpoint "
+             "registered under one binding is never served under another")
+    m = run.model
+    ms = m.cls("mdstore.MetadataStore")
+    n = 0
+    for name, fi in sorted(ms.methods.items()):
+        if "binding" not in fi.params() or name in ("service", "ext_service"):
+            continue
+        cfg = cfg_of(fi, m)
+        calls = [(nd, c) for nd, c in cfg.call_nodes("service") +
+                 cfg.call_nodes("ext_service")
+                 if attr_chain(c.func) in ("self.service", "self.ext_service")]
+        if not calls:
+            continue
+        org = Origins(cfg)
+        for nd, c in calls:
+            n += 1
+            a = arg_of(c, 3, "binding")
+            got = {(x.kind, x.text) for x in org.of(a, nd.id)} \
+                if a is not None else set()
+            key = "%s::%s" % (fi.qual, norm_text(c)[:70])
+            run.check(("param", "binding") in got, rule, key,
+                      "asks for the caller's binding",
+                      "the store is asked for binding %s whatever binding the "
+                      "caller named: endpoints of that binding are served "
+                      "under a binding they are not registered for" %
+                      sorted(got), fi.loc(c))
+        for h in excflow.handlers_of(fi, m):
+            if excflow.may_catch(m, h, ["UnsupportedBinding",
+                                        "UnknownSystemEntity"]):
+                run.check(not h.swallows() and h.dispositions <= {"reraise"},
+                          rule, h.key,
+                          "the store's refusal propagates",
+                          "the accessor handles the store's refusal (%s) "
+                          "instead of letting it propagate" %
+                          sorted(h.dispositions), h.loc())
+    run.floor(rule, "accessor calls to service()", n, 10)
+
+
 def check(run):
     run.explanation = (
         "C09: derivation of every destination returned by pick_binding "
@@ -295,3 +337,4 @@ def check(run):
     r2_refuse_otherwise(run)
     r3_requester_metadata(run)
     r4_store_side(run)
+    r5_accessors_pass_binding(run)
